@@ -138,7 +138,8 @@ def _make_spectrum(case, wave, value, u, vu):
     cls = case.get("cls", "Spectrum")
     if cls in ("Blackbody", "vegamag") and vu is not None:
         # temperature high enough for the Planck exponent to stay well inside the float range
-        temp = 0.0144 / (case["wave_m"][0] * 40.0) * case["temp_factor"]
+        # (for vegamag also at the band's reference wavelength, 0.36 um or longer)
+        temp = 0.0144 / (min(case["wave_m"][0], 3.6e-7 if cls == "vegamag" else 1.0) * 40.0) * case["temp_factor"]
         if cls == "Blackbody":
             return rad.Blackbody(wave.copy(), temp, waveunit=u, valueunit=vu)
         if vu == "photlam":
@@ -163,8 +164,9 @@ def spectrum_to(case, ctx):
     with lentil_call("C14.spectrum.make", f"{case.get('cls', 'Spectrum')} in ({u}, {vu})"):
         s = make_spectrum(case, wave, value, u, vu)
     value = np.asarray(s.value, dtype=float).copy()
-    if not np.all(np.isfinite(value)) or not np.any(value):
-        raise Skip("degenerate_blackbody_values")
+    if not np.all(np.isfinite(value)) or not np.any(value) or np.max(np.abs(value)) > 1e200 \
+            or np.min(np.abs(value[value != 0])) < 1e-200:
+        raise Skip("degenerate_blackbody_values")          # over/underflow regime of the Planck exponent
     ctx.tag("valueunit:" + str(vu), "start:" + u, f"path_len:{len(case['path'])}", "object:" + type(s).__name__ +
             ("(vegamag)" if hasattr(s, "band") else "(copy)" if case.get("cls") == "copy" else ""))
     ctx.nontrivial_if(any(p != u and p != vu for p in case["path"]))
